@@ -79,7 +79,7 @@ theorem showToks_eq (e : Expr) : showToks e = e.norm.flatten := by
   simp only [toksOf_showToks]
   fun_induction Expr.norm e <;>
     simp_all [Expr.pieces, Expr.flatten, likeOps, Expr.isNil]
-  · rename_i o t e ih; cases o <;> simp [Expr.pieces, ih, UnOp.tok]
+  · rename_i o t e ih; cases o <;> simp [Expr.pieces, ih, UnOp.tok, apply_ite toksOf]
   · rename_i e sep rest ih2 ih1
     cases rest <;> simp_all [Expr.norm, Expr.flatten]
 
@@ -157,7 +157,11 @@ theorem pieces_norm (e : Expr) : e.norm.pieces = e.pieces := by
   fun_induction Expr.norm e <;>
     try (simp_all [Expr.pieces, isNil_norm, atomPieces_norm, castPieces_norm, escPieces_norm]; done)
   rename_i o t e ih
-  cases o <;> simp [Expr.pieces, ih]
+  have hh : e.norm.headIsSign = e.headIsSign := by
+    cases e <;> try (simp [Expr.norm, Expr.headIsSign]; done)
+    case bin k _ _ _ => cases k <;> simp [Expr.norm, Expr.headIsSign]
+    case post k _ _ => cases k <;> simp [Expr.norm, Expr.headIsSign]
+  cases o <;> simp [Expr.pieces, ih, hh]
 
 theorem norm_norm (e : Expr) : e.norm.norm = e.norm := by
   fun_induction Expr.norm e <;>
